@@ -44,26 +44,29 @@ def renderExpr (l : Layout) : Expr → Str
   | .call f args => f ++ '(' :: (renderArgs l 0 args ++ [')'])
   | .list xs => '[' :: (renderArgs l 0 xs ++ [']'])
   | .dict kvs => '{' :: (renderEntries l 0 kvs ++ ['}'])
+/-- the separator before element `j` of a comma-separated sequence (nothing before the first) -/
+def commaSep (l : Layout) (a b : Nat) (j : Nat) : Str :=
+  if j = 0 then [] else l.slot a ++ ',' :: l.slot b
+
 /-- elements `j, j+1, …` separated by `ws , ws` -/
 def renderArgs (l : Layout) (j : Nat) : List Expr → Str
   | [] => []
   | e :: es =>
-    (if j = 0 then [] else l.slot (2 * j) ++ ',' :: l.slot (2 * j + 1)) ++
-      renderExpr (l.sub j) e ++ renderArgs l (j + 1) es
+    commaSep l (2 * j) (2 * j + 1) j ++ (renderExpr (l.sub j) e ++ renderArgs l (j + 1) es)
 def renderEntries (l : Layout) (j : Nat) : List (Str × Expr) → Str
   | [] => []
   | (k, e) :: es =>
-    (if j = 0 then [] else l.slot (4 * j) ++ ',' :: l.slot (4 * j + 1)) ++
-      renderStr (l.quote (4 * j + 2)) k ++ l.slot (4 * j + 2) ++ ':' :: l.slot (4 * j + 3) ++
-      renderExpr (l.sub j) e ++ renderEntries l (j + 1) es
+    commaSep l (4 * j) (4 * j + 1) j ++
+      (renderStr (l.quote (4 * j + 2)) k ++ (l.slot (4 * j + 2) ++ ':' :: (l.slot (4 * j + 3) ++
+        (renderExpr (l.sub j) e ++ renderEntries l (j + 1) es))))
 end
 
 /-- statements `i, i+1, …`: `ws name ws = ws expr ws ;` -/
 def renderStmts (l : Layout) (i : Nat) : Prog → Str
   | [] => l.slot (4 * i)
   | (name, e) :: rest =>
-    l.slot (4 * i) ++ name ++ l.slot (4 * i + 1) ++ '=' :: l.slot (4 * i + 2) ++
-      renderExpr (l.sub i) e ++ l.slot (4 * i + 3) ++ ';' :: renderStmts l (i + 1) rest
+    l.slot (4 * i) ++ (name ++ (l.slot (4 * i + 1) ++ '=' :: (l.slot (4 * i + 2) ++
+      (renderExpr (l.sub i) e ++ (l.slot (4 * i + 3) ++ ';' :: renderStmts l (i + 1) rest)))))
 
 def render (p : Prog) (l : Layout) : Str := renderStmts l 0 p
 
